@@ -450,10 +450,9 @@ func analyseDump(dump string) (blocked, running int, ageFrame, state string) {
 	return
 }
 
-func runDefaults(scratch string, r *mon.Run) *defaultsResult {
-	res := &defaultsResult{}
-	// the binary without the race detector
-	bin := filepath.Join(scratch, "c20-plain")
+// buildPlain builds this program once more, without the race detector.
+func buildPlain(scratch string, r *mon.Run) (bin string, seconds float64, errText string) {
+	bin = filepath.Join(scratch, "c20-plain")
 	t0 := time.Now()
 	args := []string{"build", "-tags", "verif"}
 	args = append(args, strings.Fields(os.Getenv("VERIF_MODFLAG"))...)
@@ -461,10 +460,13 @@ func runDefaults(scratch string, r *mon.Run) *defaultsResult {
 	cmd := exec.Command("go", args...)
 	cmd.Dir = filepath.Join(r.Root, "harness")
 	if ob, err := cmd.CombinedOutput(); err != nil {
-		res.buildErr = fmt.Sprintf("%v: %s", err, mon.Trunc(ob, 600))
-		return res
+		return "", 0, fmt.Sprintf("%v: %s", err, mon.Trunc(ob, 600))
 	}
-	res.buildS = time.Since(t0).Seconds()
+	return bin, time.Since(t0).Seconds(), ""
+}
+
+func runDefaults(bin, scratch string, r *mon.Run) *defaultsResult {
+	res := &defaultsResult{}
 
 	jb := dJob{Seed: r.Seed, Progress: filepath.Join(scratch, "defaults.progress"), Out: filepath.Join(scratch, "defaults.out.json")}
 	if r.Thorough() {
